@@ -115,7 +115,7 @@ def run_once(case, crash_at, crash_node, crash2=None, want_info=False):
         r['server_running'] = sim.server.running
         r['live_workers'] = [
             n for n, w in sim.workers.items()
-            if sim.alive(n) and w._running
+            if sim.alive(n)
         ]
         r['live_managers'] = [
             n for n, m in sim.managers.items() if sim.alive(n) and m.running
